@@ -231,8 +231,11 @@ def order_signature(prog, d):
     fo, po, ko = branch(co, do)
     rel = '<' if pe < po else '>'
     # what characterises the root cause is WHERE the overtaking effect comes from: a later operand itself
-    # ('self'), something nested inside it ('inner') or the enclosing node's own effect ('own')
-    sig = 'c18:order:%s:%s%s%s:%s' % (kinds[lca], fe, rel, fo, ko)
+    # ('self'), something nested inside it ('inner') or the enclosing node's own effect ('own') - and whether the
+    # overtaken effect is the earlier operand's own effect (for a target: its read / store / deletion) or the
+    # evaluation of something nested inside that operand ('in-<field>'): "operands of the right-hand side are
+    # hoisted before the READ of the target" and "... before the OPERANDS of the target" are different causes
+    sig = 'c18:order:%s:%s%s%s%s:%s' % (kinds[lca], 'in-' if ke == 'inner' else '', fe, rel, fo, ko)
     what = ('effect %s (%s of %s) must precede %s (%s of the same %s) but happens after it' % (
         slog[j], fe if ke == 'self' else 'inside ' + fe, kinds[lca], olog[j],
         fo if ko == 'self' else 'inside ' + fo, kinds[lca]))
